@@ -436,11 +436,14 @@ def configs(tier):
     if tier != 'quick':
         m2 += ['Toric2DCode(3,4)', 'Planar2DCode(4,3)', 'RotatedPlanar2DCode(4,3)', 'Toric2DCode(4,4)', 'Planar2DCode(4,4)']
     out += [f'matching {c}' for c in m2]
+    # one code per ordering of the X- and Z-type checks in the stabilizer list (Z first: surface codes;
+    # interleaved: colour codes; X first: rhombic codes), CSS and non-CSS
     bp = ['RotatedPlanar2DCode(2,2)', 'Toric2DCode(2,2)', 'RotatedPlanar2DCode(2,2)/XZZX/x', 'Toric2DCode(2,2)/XY',
-          'RotatedPlanar3DCode(2,2,2)']
+          'RotatedPlanar3DCode(2,2,2)', 'Color666PlanarCode(2,2)', 'RhombicPlanarCode(2,2,2)', 'Color488Code(2,2)']
     if tier != 'quick':
         bp += ['Planar2DCode(2,3)', 'Toric3DCode(2,2,2)/XZZX/z', 'XCubeCode(2,2,2)', 'RhombicPlanarCode(2,2,2)/Checkerboard XZZX',
-               'Color666PlanarCode(2,2)', 'Planar2DCode(2,3)/XY']
+               'RhombicToricCode(2,2,2)', 'HollowRhombicCode(2,2,3)', 'Color666ToricCode(2,2)', 'Color3DCode(2,2,2)',
+               'HollowPlanar3DCode(2,2,2)', 'Planar2DCode(2,3)/XY', 'Color488Code(2,2)/XXZZ']
     out += [f'bposd {c} noupdate' for c in bp]
     out += ['bposd RotatedPlanar2DCode(2,2) update', 'bposd Planar2DCode(2,2) update']
     out += ['unionfind Toric2DCode(2,2)', 'unionfind Toric2DCode(2,3)'] + (['unionfind Toric2DCode(3,4)'] if tier != 'quick' else [])
